@@ -491,6 +491,14 @@ pub fn corpus() -> Vec<(&'static str, Prog)> {
         b.tasks[1] = vec![Op::Park, Op::Park];
         v.push(("double-unpark-double-park", b.finish(false)));
     }
+    // one unpark for two parks: an unpark that wakes a parked thread must not also leave a token behind
+    for joined in [true, false] {
+        let mut b = B::new(2);
+        let a = b.obj(Obj::Atomic(0));
+        b.tasks[0] = vec![Op::Unpark(1), Op::FetchAdd(a, 1)];
+        b.tasks[1] = vec![Op::Park, Op::Park, Op::FetchAdd(a, 10)];
+        v.push((if joined { "single-unpark-double-park-joined" } else { "single-unpark-double-park" }, b.finish(joined)));
+    }
     // reused barrier with more tasks than n
     {
         let mut b = B::new(4);
